@@ -135,7 +135,8 @@ var dbName = []string{"nil", `"D"`}
 
 func mkBody(db int) []byte {
 	if db == 1 {
-		return []byte("D")
+		// as io.ReadAll hands it to the command: a slice with (much) spare capacity behind its content
+		return append(make([]byte, 0, 1024), 'D')
 	}
 	return nil
 }
